@@ -38,6 +38,9 @@ DESCS = (
     "A single line that is longer than seventy characters but well below the wrap limit.",
     'Ends with a "quote"',
     "  leading blanks on the first line\nsecond",
+    'Triple """ quotes inside',
+    'How to escape them: \\""" (backslash, then three quotes)',
+    "A back\\slash and a tab\tcharacter",
 )
 
 
@@ -45,6 +48,7 @@ def _desc(r, indent=""):
     d = DESCS[r.randrange(len(DESCS))] if r.random() < 0.45 else None
     if d is None:
         return ""
+    d = d.replace('"""', '\\"""')  # the one escape of block strings
     if "\n" in d or d.endswith('"') or d.startswith(" "):
         body = "\n".join(indent + l if l else "" for l in d.split("\n"))
         return '%s"""\n%s\n%s"""\n' % (indent, body, indent)
@@ -224,6 +228,13 @@ def gen_sdl(seed, idx):
         out.append("extend enum Color%s {\n  PURPLE\n}" % _dirs(r, "ENUM"))
     if r.random() < 0.3:
         out.append("extend input Pt {\n  z: Int\n}")
+    if r.random() < 0.3:
+        # an ordinary object type whose name is a root operation name in
+        # another case (root types are found by their exact names)
+        alike = r.choice(("mutation", "SUBSCRIPTION", "subscription",
+                          "Queries", "MUTATION"))
+        out.append("type %s {\n  n: Int\n}" % alike)
+        out.append("extend type %s {\n  alike: %s\n}" % (qname, alike))
     return out
 
 
